@@ -242,7 +242,7 @@ package classifier
 //@   loop 2 invariant 0 <= i && i <= q && offset + q <= len(toks)
 //@   loop 1 decreases len(toks) - offset
 //@   loop 2 decreases q - i
-//@   props C10 C17
+//@   props C10 C17 C01
 //@
 //@ func (*searchSet).generateNodeList
 //@   requires s != nil && len(s.Checksums) == len(s.ChecksumRanges) && s.nodes == nil
